@@ -369,7 +369,11 @@ def instances(tier, seed):
         keep = {id(c) for c in rnd.sample(heavy, min(20, len(heavy)))}
         pick = [c if (c['fee_l'] != 15 or id(c) in keep) else dict(c, fee_l=7) for c in pick]
     else:
-        pick = combos if len(combos) <= 3000 else rnd.sample(combos, 3000)
+        pick = combos if len(combos) <= 1500 else rnd.sample(combos, 1500)
+        # sized so that the tier finishes inside its wall-clock cap: at most 150 of the 15-byte-fee instances (a minute each)
+        heavy = [c for c in pick if c['fee_l'] == 15]
+        keep = {id(c) for c in rnd.sample(heavy, min(150, len(heavy)))}
+        pick = [c if (c['fee_l'] != 15 or id(c) in keep) else dict(c, fee_l=7) for c in pick]
     # the expensive header class first: the pool then ends on cheap instances instead of waiting for a late expensive one
     pick = sorted(pick, key=lambda c: -(c['fee_l'] + c['gl']))
     seen = set()
